@@ -107,7 +107,7 @@ func opInputWalk(helper string, g *graph.G, walk []int, seed int64, settle bool)
 	}
 	const wait = 5 * time.Second
 	pending := map[int][]byte{} // insert j -> payload not yet seen on the channel
-	var pretend [][]byte         // payloads generated for Ctrl+J: must never be entered
+	var pretend [][]byte        // payloads generated for Ctrl+J: must never be entered
 	sent := map[int]bool{}
 	ins := 0
 	// entry classifies one channel entry; the typed line being waited for, if any, is cur
